@@ -75,7 +75,7 @@ def summarise(merged, repo, anchor_files):
     """merged: {relative file: set(lines)} -> {file: [executed, executable]} for the property's anchor .py files"""
     out = {}
     for rel in anchor_files:
-        if "*" in rel or not rel.endswith(".py") or not rel.startswith("dateparser/"):
+        if "*" in rel or not rel.endswith(".py") or not rel.startswith("dateparser/") or "/date_translation_data/" in rel:
             continue
         path = os.path.join(repo, rel)
         if not os.path.exists(path):
